@@ -49,7 +49,7 @@ func run(c *vk.Ctx) {
 	}
 	defer v2.Close()
 	modes := []drive.Mode{"default", "fast"}
-	sem.RunCases(c, v1, "mem", c.Pick(120, 1500), gen.Options{WideEvery: 4, AlgebraEvery: 5, HierarchyEvery: 6}, 3, 16, func(i int, r *rand.Rand, p *sem.Prepared, contextual []*openfgav1.TupleKey) {
+	sem.RunCases(c, v1, "mem", c.Pick(120, 1500), gen.Options{WideEvery: 4, AlgebraEvery: 5, HierarchyEvery: 3}, 3, 16, func(i int, r *rand.Rand, p *sem.Prepared, contextual []*openfgav1.TupleKey) {
 		oneCase(c, i, r, p, contextual, v1, v2, rec, modes)
 	})
 	for name, n := range drive.ForcedCounts() {
